@@ -9,7 +9,7 @@ rm -rf $MX; mkdir -p $MX; git -C /repo worktree prune
 ids=(); for d in /verif/seeded/*/ ; do id=$(basename $d); [ -f $d/patch.diff ] && [[ "$id" == $PAT ]] && ids+=("$id"); done
 worker() {
   k=$1; wt=$MX/w$k
-  git -C /repo worktree add --detach -f $wt HEAD >/dev/null 2>&1 || { echo "worktree $k failed"; return; }
+  [ -d $wt ] || { echo "worktree $k missing"; return; }
   i=0
   for id in "${ids[@]}"; do
     i=$((i+1)); [ $(( i % N )) -eq $k ] || continue
@@ -21,6 +21,7 @@ worker() {
   git -C /repo worktree remove --force $wt
   rm -rf /verif/.work/*-mx$k
 }
+for k in $(seq 0 $((N-1))); do git -C /repo worktree add --detach -f $MX/w$k HEAD >/dev/null 2>&1; done   # sequentially: concurrent adds race on .git/worktrees
 for k in $(seq 0 $((N-1))); do worker $k & done; wait
 if [ "$PAT" = "*" ]; then cat $MX/rows.* | sort > $OUT; else
   cat $MX/rows.* | while IFS=$'\t' read id res; do grep -v "^$id	" $OUT > $OUT.tmp; mv $OUT.tmp $OUT; echo -e "$id\t$res" >> $OUT; done; sort -o $OUT $OUT; fi
